@@ -123,11 +123,12 @@ pub fn start_fsm_with_data_and_finish_mode(
 
     let global_data = session.global_data.clone();
     {
+        // Copy the processor list first: the executor state must not be locked while a processor is locked
+        // (a processor that sends to a session locks the executor state itself).
+        let processors = executor.state.lock().unwrap().processors.clone();
         let mut gc = global_data.lock().unwrap();
         gc.actions = actions;
-        let executor_state_lock = executor.state.lock();
-        let guard = executor_state_lock.unwrap();
-        for p in &guard.processors {
+        for p in &processors {
             let pg = p.lock().unwrap();
             for t in pg.get_types() {
                 gc.io_processors.insert(t.to_string(), p.clone());
